@@ -7,6 +7,8 @@ import PdfVerif.Lemmas.LayoutAnalyze
 namespace PdfVerif.Layout
 open PdfVerif PdfVerif.Gen.Layout
 
+variable {le : Cmp}
+
 /-! ### vocabulary -/
 
 def Child.glyphs : Child → List Glyph
@@ -81,19 +83,19 @@ theorem toChild_others (items : List Item) :
     cases it <;> simp only [List.map_cons, List.filterMap_cons, Item.toChild, Child.other?, Item.other?, ih]
 
 /-- The stages of `analyze` on a container that has at least one glyph. -/
-structure Stages (p : LAParams) (pageBB : BB) (items : List Item) where
+structure Stages (le : Cmp) (p : LAParams) (pageBB : BB) (items : List Item) where
   lines : List Line
   boxes : List Box
   hlines : lines = groupObjects p (items.filterMap Item.glyph?)
   hboxes : boxes = groupTextlines p pageBB (lines.filter (fun l => !l.isEmpty))
-  children : (analyze p pageBB items).children =
-    (finalBoxes p pageBB boxes).1.map Child.box ++ (items.filterMap Item.other?).map Child.other
+  children : (analyze le p pageBB items).children =
+    (finalBoxes le p pageBB boxes).1.map Child.box ++ (items.filterMap Item.other?).map Child.other
       ++ ((lines.filter Line.isEmpty).map Line.analyze).map Child.line
-  groups : (analyze p pageBB items).groups = (finalBoxes p pageBB boxes).2.1
-  flags : (analyze p pageBB items).flags = (finalBoxes p pageBB boxes).2.2
+  groups : (analyze le p pageBB items).groups = (finalBoxes le p pageBB boxes).2.1
+  flags : (analyze le p pageBB items).flags = (finalBoxes le p pageBB boxes).2.2
 
-def stages (p : LAParams) (pageBB : BB) (items : List Item)
-    (h : (items.filterMap Item.glyph?).isEmpty = false) : Stages p pageBB items :=
+def stages (le : Cmp) (p : LAParams) (pageBB : BB) (items : List Item)
+    (h : (items.filterMap Item.glyph?).isEmpty = false) : Stages le p pageBB items :=
   { lines := groupObjects p (items.filterMap Item.glyph?),
     boxes := groupTextlines p pageBB ((groupObjects p (items.filterMap Item.glyph?)).filter (fun l => !l.isEmpty)),
     hlines := rfl, hboxes := rfl,
@@ -101,23 +103,23 @@ def stages (p : LAParams) (pageBB : BB) (items : List Item)
     groups := by simp [analyze, h],
     flags := by simp [analyze, h] }
 
-theorem boxesOf_stages {p : LAParams} {pageBB : BB} {items : List Item} (s : Stages p pageBB items) :
-    boxesOf (analyze p pageBB items) = (finalBoxes p pageBB s.boxes).1 := by
+theorem boxesOf_stages {p : LAParams} {pageBB : BB} {items : List Item} (s : Stages le p pageBB items) :
+    boxesOf (analyze le p pageBB items) = (finalBoxes le p pageBB s.boxes).1 := by
   simp [boxesOf, s.children, List.filterMap_append, List.filterMap_map, Function.comp_def, Child.box?]
 
-theorem emptiesOf_stages {p : LAParams} {pageBB : BB} {items : List Item} (s : Stages p pageBB items) :
-    (analyze p pageBB items).children.filterMap Child.line? = (s.lines.filter Line.isEmpty).map Line.analyze := by
+theorem emptiesOf_stages {p : LAParams} {pageBB : BB} {items : List Item} (s : Stages le p pageBB items) :
+    (analyze le p pageBB items).children.filterMap Child.line? = (s.lines.filter Line.isEmpty).map Line.analyze := by
   simp [s.children, List.filterMap_append, List.filterMap_map, Function.comp_def, Child.line?]
 
-theorem nonEmpty_lines {p : LAParams} {pageBB : BB} {items : List Item} (s : Stages p pageBB items) :
+theorem nonEmpty_lines {p : LAParams} {pageBB : BB} {items : List Item} (s : Stages le p pageBB items) :
     ∀ l ∈ s.lines.filter (fun l => !l.isEmpty), l.isEmpty = false := by
   intro l hl
   simpa using (List.mem_filter.mp hl).2
 
 /-- Every output box is an input box of the last stage, analysed and renumbered. -/
 theorem box_origin {p : LAParams} {pageBB : BB} {boxes : List Box} (hbid : (boxes.map (·.bid)).Nodup)
-    {b' : Box} (hb' : b' ∈ (finalBoxes p pageBB boxes).1) : ∃ b ∈ boxes, strip b' = strip b.analyze := by
-  have h := (finalBoxes_spec p pageBB boxes hbid).1
+    {b' : Box} (hb' : b' ∈ (finalBoxes le p pageBB boxes).1) : ∃ b ∈ boxes, strip b' = strip b.analyze := by
+  have h := (finalBoxes_spec (le := le) p pageBB boxes hbid).1
   have : strip b' ∈ (boxes.map Box.analyze).map strip := h.subset (List.mem_map_of_mem hb')
   simp only [List.mem_map] at this
   obtain ⟨_, ⟨b, hb, rfl⟩, h2⟩ := this
